@@ -21,19 +21,25 @@ MODEL_NEEDS_IMPL = True
 SHARD = 24
 SIZES = {'quick': 900, 'thorough': 6000, 'search': 1500}
 TRACE = 24
+_R4 = "; round-four features, each in about 1/3 of the problems and from its own forked random stream: 2-4 extra jobs with REPLACEMENT tasks (also mixed with pickups / services / shipments), REQUIRED breaks (exact time or offset interval, 1-2 per shift, on shifts without optional breaks and reloads; documents show them as break activities inside a stop or as stops without location), VICINITY CLUSTERING (plan.clustering with the vehicles' profile, visiting continue / return, serving original with parking 0-10, thresholds taken from the matrix, 3-5 extra single-task jobs at a pair of near locations; not together with breaks, reloads, errorCodes or general routing data)"
 RULE = ('cases: generated pragmatic problems (3-10 jobs: deliveries, pickups, services, shipments, 2-pickup and 2-delivery '
         'multi jobs; 1-2 places / windows, tags; 1-3 vehicle types x 1-2 ids x 1-2 shifts, open and closed ends; capacity, '
         'skills, limits; metric and non-metric integer matrices) x 3 configurations each (max_generations 0-20, thread pools '
-        'none/(1,1)/(2,2), outer threads 1-2, quota firing after 0-89 polls or never). non-trivial = distinct (problem, '
+        'none/(1,1)/(2,2), outer threads 1-2, quota firing after 0-89 polls or never)' + _R4 + '. non-trivial = distinct (problem, '
         'returned document) where the document has a tour and either an unassigned job, two tours or an assigned multi job.')
 TRUSTED = ['rendering of the JSON documents into the reduced Coq types (tools/props/e2e.py g_problem / g_solution); cross-checked '
            'on every case by the independent Python twin of the checker working on the raw JSON',
            'the harness reports the core Solution (routes, unassigned) through public fields of vrp_core::models::Solution',
            'bookkeeping dumps come from the verification hook in insertions.rs (observer after apply_insertion_success, '
            'thread-local: only insertions executed on the solving thread are seen)']
-ASSUMPTIONS = ['problem fragment without required breaks and recharges; relations and vicinity clustering only in the small '
-               'clustering + relation family, whose clustered documents are judged by the accounting twin on the raw JSON '
-               '(reload and optional-break marker jobs are filtered out of the trace); '
+ASSUMPTIONS = ['problem fragment without recharges; required breaks are in (ValidX.accounted4: the break activities and stops without '
+               'location of a tour whose shift defines required breaks are DISTINCT required breaks of that shift - duration, start '
+               'inside [earliest, latest]; Valid.accounted_b judges the document without them), replacement tasks and mixed jobs are in '
+               '(AJobMixedOrder), vicinity clustering is in (clustered activities are ordinary activities with their own location for the '
+               'per-job clause; AClusterMember; the Coq checker judges the clustered documents, the Python twin is cross-checked on them); '
+               'relations only in the small clustering + relation family (reload and optional-break marker jobs are filtered out of the '
+               'trace; for clustering problems the solver works on the CLUSTERED problem, so the bookkeeping dumps are judged with respect to '
+               'the job set they name themselves, like the sub-contexts of the decomposition search); '
                'tasks of the same kind inside one job use different locations (checked: precond_viol)',
                'operator choice (which job, which route) is an oracle argument of the bookkeeping model; ruin/removal steps '
                'are validated only through the end-to-end document, not step by step']
